@@ -192,14 +192,14 @@ func mergeASAACLs(ab *cmdsPair, name, prefix string) {
 		// Add ACL lines marked with [APPEND] behind last permit line.
 		// Find last permit line within entries from Netspoc.
 		i := len(acl) - 1
-		for ; i >= 0; i-- {
+		for ; i >= len(prependACL); i-- {
 			if strings.Contains(acl[i].parsed, "$NAME extended permit") {
 				i++
 				break
 			}
 		}
-		// Add at beginning if ACL has no permit line.
-		i = max(i, 0)
+		// Add behind prepended lines if ACL has no permit line.
+		i = max(i, len(prependACL))
 		acl = append(acl[:i], append(appendACL, acl[i:]...)...)
 	}
 	// Store changed ACL.
@@ -229,14 +229,14 @@ func mergeIOSACLs(ab *cmdsPair, name, prefix string) {
 		// Add ACL lines marked with [APPEND] behind last permit line.
 		// Find last permit line within entries from Netspoc.
 		i := len(acl) - 1
-		for ; i >= 0; i-- {
+		for ; i >= len(prependACL); i-- {
 			if strings.HasPrefix(acl[i].parsed, "permit ") {
 				i++
 				break
 			}
 		}
-		// Add at beginning if ACL has no permit line.
-		i = max(i, 0)
+		// Add behind prepended lines if ACL has no permit line.
+		i = max(i, len(prependACL))
 		acl = append(acl[:i], append(appendACL, acl[i:]...)...)
 	}
 	// Store changed ACL.
